@@ -486,6 +486,12 @@ func (s *Store) GC(ctx context.Context) error {
 		return fmt.Errorf("unable to reload index: %w", err)
 	}
 	reachableNodes := s.graph.DigestSet()
+	if s.AutoSaveIndex {
+		// the index no longer lists the manifests that are about to be swept
+		if err := s.saveIndex(); err != nil {
+			return err
+		}
+	}
 
 	// clean up garbage blobs in the storage
 	rootpath := filepath.Join(s.root, ocispec.ImageBlobsDir)
